@@ -215,6 +215,6 @@ def run(case, ctx):
 
 
 CHECKS = [
-    Check('roundtrip', roundtrip_case(), run, quick=500, thorough=16000, doc='export/reload/redesign rounds'),
+    Check('roundtrip', roundtrip_case(), run, quick=500, thorough=8000, doc='export/reload/redesign rounds'),
     Check('roundtrip-raman', roundtrip_case(raman=True), run, quick=24, thorough=600, doc='same with RamanFiber spans'),
 ]
